@@ -5,24 +5,43 @@ import os, random, subprocess, time
 from . import vlib
 from .vlib import log
 
-UN = ["then", "uerr", "udone", "md", "dao", "uns", "tag", "src", "era", "iv", "dfr", "alc"]
+UN = ["then", "uerr", "udone", "md", "dao", "uns", "tag", "src", "era", "iv", "dfr", "alc", "rtk", "lvt"]
 BIN = ["lv", "le", "ld", "seq", "fin", "wa", "sw", "any"]
 
 
 class Gen:
-    def __init__(self, rng, max_size=12, max_depth=5, allow=None):
+    def __init__(self, rng, max_size=12, max_depth=5, allow=None, tok_flag=False):
         self.r, self.max_size, self.max_depth = rng, max_size, max_depth
         self.allow = allow
+        self.tok_flag = tok_flag
         self.nleaf = 0
         self.size = 0
 
-    def fn(self):
+    def fn(self, nullary=False):
+        """scripted user callable; the v* forms return void (the library has separate branches for void results);
+        nullary (upon_done): no argument, so add/tie are pointless"""
         k = self.r.random()
-        if k < 0.6:
+        if nullary:
+            if k < 0.45:
+                return f"{self.r.randint(0, 9)}"
+            if k < 0.6:
+                return f"thr:{self.r.randint(1, 9)}"
+            if k < 0.8:
+                return f"vcst:{self.r.randint(0, 9)}"
+            return f"vthr:{self.r.randint(1, 9)}"
+        if k < 0.4:
             return f"add:{self.r.randint(0, 9)}"
-        if k < 0.8:
+        if k < 0.52:
             return f"thr:{self.r.randint(1, 9)}"
-        return f"tie:{self.r.randint(0, 12)}:{self.r.randint(1, 9)}:{self.r.randint(0, 9)}"
+        if k < 0.64:
+            return f"tie:{self.r.randint(0, 12)}:{self.r.randint(1, 9)}:{self.r.randint(0, 9)}"
+        if k < 0.72:
+            return f"cst:{self.r.randint(0, 9)}"
+        if k < 0.82:
+            return f"vcst:{self.r.randint(0, 9)}"
+        if k < 0.91:
+            return f"vthr:{self.r.randint(1, 9)}"
+        return f"vtie:{self.r.randint(0, 12)}:{self.r.randint(1, 9)}:{self.r.randint(0, 9)}"
 
     def leafish(self, in_let):
         self.size += 1
@@ -51,7 +70,9 @@ class Gen:
             c = self.expr(depth + 1, in_let)
             if k in ("then", "uerr"):
                 return f"({k} {self.fn()} {c})"
-            if k in ("udone", "dao", "tag"):
+            if k == "udone":
+                return f"({k} {self.fn(nullary=True)} {c})"
+            if k in ("dao", "tag"):
                 return f"({k} {self.r.randint(0, 9)} {c})"
             return f"({k} {c})"
         k = self.r.choice(BIN)
@@ -89,7 +110,8 @@ class Gen:
                 evs.append(f"c{i}:{ch}{self.r.randint(0, 9) if ch != 'd' else ''}")
         if stop_at == len(order):
             evs.append("stop")
-        return f"{cid} | {e} | {' '.join(specs)} | {' '.join(evs)}"
+        tok = " | tok" if self.tok_flag and self.r.random() < 0.4 else ""
+        return f"{cid} | {e} | {' '.join(specs)} | {' '.join(evs)}{tok}"
 
 
 def _clean_fn(fn):
@@ -169,7 +191,8 @@ class EventPart:
 
     def __init__(self, name="evt", n_quick=3000, n_thorough=60000, max_size=12, max_size_thorough=25, std=None,
                  extra_flags=(), monitors_only=False, report_crashes=True, extra_cases=None, src_file="evt.cpp",
-                 faults_quick=0, faults_thorough=0):
+                 faults_quick=0, faults_thorough=0, tok_flag=True):
+        self.tok_flag = tok_flag
         self.name, self.n_quick, self.n_thorough = name, n_quick, n_thorough
         self.max_size, self.max_size_thorough, self.std, self.extra_flags = max_size, max_size_thorough, std, extra_flags
         self.monitors_only = monitors_only
@@ -189,7 +212,7 @@ class EventPart:
             return
         n = self.n_quick if tier == "quick" else self.n_thorough
         rng = random.Random(seed * 7919 + 11)
-        g = Gen(rng, self.max_size if tier == "quick" else self.max_size_thorough)
+        g = Gen(rng, self.max_size if tier == "quick" else self.max_size_thorough, tok_flag=self.tok_flag)
         corpus = []
         cdir = os.path.join(vlib.VERIF, "corpus", "evt")
         if os.path.isdir(cdir):
@@ -219,7 +242,7 @@ class EventPart:
                 moves.append(int(m))
             else:
                 moves.append(0)
-        model = [driver.ask("ask calc run | " + l) for l in lines]
+        model = [driver.ask("ask calc run | " + (l[:-6] if l.endswith(" | tok") else l)) for l in lines]
         distinct = set()
         hist = {}
         mism = 0
@@ -229,8 +252,8 @@ class EventPart:
             for tok in l.split("|")[1].replace("(", " ").replace(")", " ").split():
                 if tok.isalpha():
                     hist[tok] = hist.get(tok, 0) + 1
-            if "!!root" in a or "!!completion" in a or "!!leak" in a or "!!tvleak" in a:
-                verdict.add(f"{self.name}: monitor {a.split('!!')[1].split(',')[0].split(' ')[0]}", f"implementation monitor fired: {a}",
+            if "!!root" in a or "!!completion" in a or "!!leak" in a or "!!tvleak" in a or "!!cbreg" in a:
+                verdict.add(f"{self.name}: monitor {a.split('!!')[1].split(',')[0].split(' ')[0].split('=')[0]}", f"implementation monitor fired: {a}",
                             dict(stream=self.name, case=l, impl=a, model=b), found_input=True)
             if a != b:
                 mism += 1
@@ -248,8 +271,7 @@ class EventPart:
         if nf:
             # a FIXED corpus (independent of VERIF_SEED), so that the set of failing sites on the unchanged
             # tree is the same on every run and the known findings recorded for it are complete
-            fg = Gen(random.Random(424242), 10)
-            fbase = [fg.case(f"f{i}") for i in range(nf)]
+            fbase = [l.strip() for l in open(os.path.join(vlib.VERIF, "corpus", "evt_fault", "fixed.txt")) if l.strip() and not l.startswith("#")][:nf]
             fb_out, fb_cr = run_lines(exe, fbase, "case ")
             flines = []
             for l, a in zip(fbase, fb_out):
